@@ -22,3 +22,542 @@ Proof.
   destruct sc as [|x r]; [reflexivity|].
   unfold nonzero. apply nonzero_from_members. intros y. cbn [isin existsb]. now rewrite orb_false_r.
 Qed.
+
+(* ---------- Step A: argsort + gather = sorting the (key, payload) pairs ---------- *)
+Section Payload.
+Context {V W : Type}.
+Variable g : V -> W.
+Definition remap (kv : Z * V) : Z * W := (fst kv, g (snd kv)).
+
+Lemma insert_remap x l : insert (remap x) (map remap l) = map remap (insert x l).
+Proof.
+  induction l as [|y r IH]; [reflexivity|]. cbn [map insert].
+  change (fst (remap x)) with (fst x). change (fst (remap y)) with (fst y).
+  destruct (fst x <=? fst y); cbn [map]; [reflexivity|]. now rewrite IH.
+Qed.
+
+Lemma isort_remap l : isort (map remap l) = map remap (isort l).
+Proof.
+  induction l as [|x r IH]; [reflexivity|]. cbn [map isort fold_right].
+  fold (isort r). fold (isort (map remap r)). now rewrite IH, insert_remap.
+Qed.
+End Payload.
+
+Lemma map_fst_remap {V W} (g : V -> W) l : map fst (map (remap g) l) = map fst l.
+Proof. rewrite map_map. apply map_ext. reflexivity. Qed.
+Lemma map_snd_remap {V W} (g : V -> W) l : map snd (map (remap g) l) = map g (map snd l).
+Proof. rewrite !map_map. apply map_ext. reflexivity. Qed.
+
+(* the sorted keys depend on the keys only *)
+Lemma isort_keys_only {V W} (l : list (Z * V)) (l' : list (Z * W)) :
+  map fst l = map fst l' -> map fst (isort l) = map fst (isort l').
+Proof.
+  intros H.
+  rewrite <- (map_fst_remap (fun _ => tt) (isort l)), <- (map_fst_remap (fun _ => tt) (isort l')).
+  rewrite <- !isort_remap. do 2 f_equal.
+  revert l' H; induction l as [|x r IH]; intros [|y r'] H; cbn [map] in *; try discriminate; [reflexivity|].
+  injection H as H1 H2. unfold remap at 1 3. rewrite H1. f_equal. now apply IH.
+Qed.
+
+Lemma gather_total {A} (l : list A) (idx : list nat) (d : A) :
+  (forall i, In i idx -> (i < length l)%nat) ->
+  gather l idx = Some (map (fun i => nth i l d) idx).
+Proof.
+  induction idx as [|i r IH]; intros H; [reflexivity|]. cbn [gather map].
+  rewrite IH by (intros j Hj; apply H; now right).
+  assert (Hi : (i < length l)%nat) by (apply H; now left).
+  rewrite (nth_error_nth' l d Hi). reflexivity.
+Qed.
+
+Lemma gather_none {A} (l : list A) (idx : list nat) i :
+  In i idx -> (length l <= i)%nat -> gather l idx = None.
+Proof.
+  induction idx as [|j r IH]; intros Hin Hi; [contradiction|]. cbn [gather].
+  destruct Hin as [->|Hin].
+  - apply nth_error_None in Hi. now rewrite Hi.
+  - rewrite (IH Hin Hi). now destruct (nth_error l j).
+Qed.
+
+Lemma combine_as_remap (sc ids : list Z) (d : Z) (k : nat) :
+  (k + length sc <= length ids)%nat ->
+  combine sc (skipn k ids) = map (remap (fun i => nth i ids d)) (combine sc (seq k (length sc))).
+Proof.
+  revert k; induction sc as [|x r IH]; intros k H; [reflexivity|]. cbn [length] in H.
+  cbn [length seq combine map]. 
+  assert (Hk : (k < length ids)%nat) by lia.
+  assert (E : skipn k ids = nth k ids d :: skipn (S k) ids).
+  { clear -Hk. revert k Hk; induction ids as [|y t IH]; intros k Hk; cbn [length] in Hk; [lia|].
+    destruct k as [|k]; [reflexivity|]. cbn [skipn nth]. apply IH. lia. }
+  rewrite E. cbn [combine]. unfold remap at 1. cbn [fst snd]. f_equal. apply IH. lia.
+Qed.
+
+Lemma argsort_in_range sc i : In i (stable_argsort sc) -> (i < length sc)%nat.
+Proof.
+  unfold stable_argsort. intros H.
+  assert (P : Permutation (map snd (isort (combine sc (seq 0 (length sc))))) (map snd (combine sc (seq 0 (length sc)))))
+    by (apply Permutation_map, isort_perm).
+  apply (Permutation_in _ P) in H. apply in_map_iff in H as ((k & j) & <- & Hkj).
+  apply in_combine_r in Hkj. apply in_seq in Hkj. cbn [snd]. lia.
+Qed.
+
+Lemma argsort_complete sc i : (i < length sc)%nat -> In i (stable_argsort sc).
+Proof.
+  unfold stable_argsort. intros H.
+  assert (P : Permutation (map snd (combine sc (seq 0 (length sc)))) (map snd (isort (combine sc (seq 0 (length sc))))))
+    by (apply Permutation_map, Permutation_sym, isort_perm).
+  apply (Permutation_in _ P).
+  assert (E : map snd (combine sc (seq 0 (length sc))) = seq 0 (length sc)).
+  { clear. generalize 0%nat. induction sc as [|x r IH]; intros k; [reflexivity|]. cbn [length seq combine map snd]. now rewrite IH. }
+  rewrite E. apply in_seq. lia.
+Qed.
+
+(* spike_ids[rel] = the payloads of the sorted pairs *)
+Lemma gather_ids_sorted (sc ids : list Z) :
+  (length sc <= length ids)%nat ->
+  gather ids (stable_argsort sc) = Some (map snd (isort (combine sc ids))).
+Proof.
+  intros H. rewrite (gather_total ids _ 0).
+  2:{ intros i Hi. apply argsort_in_range in Hi. lia. }
+  f_equal. unfold stable_argsort.
+  rewrite <- map_snd_remap, <- isort_remap.
+  rewrite <- (combine_as_remap sc ids 0 0) by (cbn; lia). reflexivity.
+Qed.
+
+(* spike_clusters[rel] = the keys of the sorted pairs *)
+Lemma gather_keys_sorted {V} (sc : list Z) (ids : list V) :
+  (length sc <= length ids)%nat ->
+  gather sc (stable_argsort sc) = Some (map fst (isort (combine sc ids))).
+Proof.
+  intros H. rewrite (gather_ids_sorted sc sc) by lia. f_equal.
+  assert (Hd : Forall (fun kv : Z * Z => fst kv = snd kv) (combine sc sc)).
+  { clear. induction sc as [|x r IH]; cbn [combine]; constructor; auto. }
+  assert (Hs : Forall (fun kv : Z * Z => fst kv = snd kv) (isort (combine sc sc))).
+  { rewrite Forall_forall in *. intros kv Hkv. apply Hd. eapply Permutation_in; [apply isort_perm|exact Hkv]. }
+  transitivity (map fst (isort (combine sc sc))).
+  - symmetry. apply map_ext_in. intros kv Hkv. rewrite Forall_forall in Hs. now apply Hs.
+  - apply isort_keys_only.
+    assert (forall (A B : Type) (a : list A) (b : list B), (length a <= length b)%nat -> map fst (combine a b) = a) as Hc.
+    { intros A B a; induction a as [|x r IH]; intros [|y b] Hl; cbn [length] in *; try reflexivity; try lia.
+      cbn [combine map fst]. f_equal. apply IH. lia. }
+    rewrite !Hc by lia. reflexivity.
+Qed.
+
+(* ---------- Step B: a list is the concatenation of its runs ---------- *)
+Section Blocks.
+Context {V : Type}.
+Notation kv := (Z * V)%type.
+Notation block := (Z * list V)%type.
+
+Definition expand (B : list block) : list kv :=
+  flat_map (fun cv => map (pair (fst cv)) (snd cv)) B.
+
+Lemma runs_expand (s : list kv) : expand (runs s) = s.
+Proof.
+  induction s as [|x r IH]; [reflexivity|]. cbn [runs].
+  destruct (runs r) as [|[c vs] rest] eqn:E.
+  - apply runs_nil in E. subst r. cbn. now destruct x.
+  - destruct (fst x =? c) eqn:Ec.
+    + rewrite <- IH. cbn [expand flat_map fst snd map app]. f_equal.
+      destruct x as [k v]. cbn [fst snd] in *. f_equal. lia.
+    + rewrite <- IH. cbn [expand flat_map fst snd map app]. now destruct x.
+Qed.
+
+Lemma runs_nonempty (s : list kv) : Forall (fun cv : block => snd cv <> []) (runs s).
+Proof.
+  induction s as [|x r IH]; [constructor|]. cbn [runs].
+  destruct (runs r) as [|[c vs] rest].
+  - constructor; [discriminate|constructor].
+  - inversion IH; subst. destruct (fst x =? c); constructor; try discriminate; try assumption.
+Qed.
+
+Definition bkeys (B : list block) : list Z :=
+  flat_map (fun cv => repeat (fst cv) (length (snd cv))) B.
+
+Lemma expand_keys B : map fst (expand B) = bkeys B.
+Proof.
+  induction B as [|[c vs] r IH]; [reflexivity|]. unfold expand, bkeys in *. cbn [flat_map fst snd].
+  rewrite map_app, IH. f_equal. clear. induction vs as [|v vs IH]; [reflexivity|]. cbn. now rewrite IH.
+Qed.
+
+Lemma expand_payloads B : map snd (expand B) = concat (map snd B).
+Proof.
+  induction B as [|[c vs] r IH]; [reflexivity|]. unfold expand in *. cbn [flat_map fst snd map concat].
+  rewrite map_app, IH. f_equal. rewrite map_map. cbn [snd]. apply map_id.
+Qed.
+
+Fixpoint offsets (o : nat) (B : list block) : list nat :=
+  match B with [] => [] | cv :: r => o :: offsets (o + length (snd cv)) r end.
+
+(* strictly increasing keys, starting above prev *)
+Fixpoint incr_from (prev : Z) (B : list block) : Prop :=
+  match B with [] => True | cv :: r => prev < fst cv /\ incr_from (fst cv) r end.
+
+Lemma diff_repeat c k tl : diff_from c (repeat c k ++ tl) = repeat 0 k ++ diff_from c tl.
+Proof. induction k as [|k IH]; [reflexivity|]. cbn [repeat app diff_from]. rewrite IH. f_equal. lia. Qed.
+
+Lemma map_repeat' {A B} (f : A -> B) x k : map f (repeat x k) = repeat (f x) k.
+Proof. induction k as [|k IH]; [reflexivity|]. cbn [repeat map]. now rewrite IH. Qed.
+
+Lemma nonzero_skip i k m : nonzero_from i (repeat false k ++ m) = nonzero_from (i + k) m.
+Proof.
+  revert i; induction k as [|k IH]; intros i; cbn [repeat app nonzero_from].
+  - f_equal. lia.
+  - rewrite IH. f_equal. lia.
+Qed.
+
+(* C1: the positions where the first difference is positive are the block starts *)
+Lemma boundaries prev o (B : list block) :
+  Forall (fun cv : block => snd cv <> []) B -> incr_from prev B ->
+  nonzero_from o (map (fun d => 0 <? d) (diff_from prev (bkeys B))) = offsets o B.
+Proof.
+  revert prev o; induction B as [|[c vs] r IH]; intros prev o Hne Hinc; [reflexivity|].
+  inversion Hne as [|? ? Hvs Hne']; subst. cbn [snd] in Hvs. destruct Hinc as [Hlt Hinc]. cbn [fst] in *.
+  destruct vs as [|v vs]; [contradiction|].
+  unfold bkeys. cbn [flat_map fst snd length repeat app diff_from map nonzero_from offsets].
+  fold (bkeys r). replace (0 <? c - prev) with true by lia. f_equal.
+  rewrite diff_repeat, map_app, map_repeat'. replace (0 <? 0) with false by reflexivity.
+  rewrite nonzero_skip. rewrite (IH c _ Hne' Hinc). f_equal. lia.
+Qed.
+
+(* C2: the sorted keys at the block starts are the block keys *)
+Lemma keys_at_offsets (pre : list Z) (B : list block) :
+  Forall (fun cv : block => snd cv <> []) B ->
+  gather (pre ++ bkeys B) (offsets (length pre) B) = Some (map fst B).
+Proof.
+  revert pre; induction B as [|[c vs] r IH]; intros pre Hne; [reflexivity|].
+  inversion Hne as [|? ? Hvs Hne']; subst. cbn [snd] in Hvs.
+  destruct vs as [|v vs]; [contradiction|].
+  cbn [offsets gather map fst snd]. unfold bkeys. cbn [flat_map fst snd]. fold (bkeys r).
+  cbn [length repeat app].
+  rewrite nth_error_app2 by lia. rewrite Nat.sub_diag. cbn [nth_error].
+  specialize (IH (pre ++ c :: repeat c (length vs)) Hne').
+  rewrite app_length in IH. cbn [length] in IH. rewrite repeat_length in IH.
+  rewrite <- app_assoc in IH. cbn [app] in IH. rewrite IH. reflexivity.
+Qed.
+End Blocks.
+
+Lemma dict_set_fresh d k v : ~ In k (map g_key d) -> dict_set d k v = d ++ [mkg k v].
+Proof.
+  induction d as [|e r IH]; intros H; [reflexivity|]. cbn [dict_set map In app] in *.
+  destruct (g_key e =? k) eqn:E; [exfalso; apply H; left; lia|]. rewrite IH by tauto. reflexivity.
+Qed.
+
+Definition to_group (cv : Z * list Z) : group := mkg (fst cv) (snd cv).
+
+(* C3: slicing between consecutive block starts gives back the blocks *)
+Lemma spc_dict_blocks (B : list (Z * list Z)) (pre : list Z) (d : list group) :
+  B <> [] -> NoDup (map g_key d ++ map fst B) ->
+  spc_dict (map fst B) (offsets (length pre) B) (pre ++ concat (map snd B)) d = d ++ map to_group B.
+Proof.
+  revert pre d; induction B as [|[c vs] r IH]; intros pre d Hne Hnd; [contradiction|].
+  cbn [map fst snd offsets spc_dict concat].
+  assert (Hc : ~ In c (map g_key d)).
+  { intros Hin. apply NoDup_remove_2 in Hnd. apply Hnd. apply in_or_app. now left. }
+  destruct r as [|[c' vs'] r'].
+  - cbn [offsets map concat]. rewrite app_nil_r. unfold slice_from.
+    rewrite skipn_app, skipn_all, Nat.sub_diag. cbn [skipn app].
+    now rewrite dict_set_fresh.
+  - remember ((c', vs') :: r') as rr eqn:Err.
+    assert (Hs : slice_nat (pre ++ vs ++ concat (map snd rr)) (length pre) (length pre + length vs) = vs).
+    { unfold slice_nat. rewrite skipn_app, skipn_all, Nat.sub_diag. cbn [skipn app].
+      replace (length pre + length vs - length pre)%nat with (length vs) by lia.
+      rewrite firstn_app, firstn_all, Nat.sub_diag. cbn [firstn]. now rewrite app_nil_r. }
+    specialize (IH (pre ++ vs) (d ++ [mkg c vs])). rewrite app_length in IH. rewrite <- app_assoc in IH.
+    assert (Hrr : rr <> []) by (subst rr; discriminate).
+    assert (Hnd' : NoDup (map g_key (d ++ [mkg c vs]) ++ map fst rr)).
+    { rewrite map_app. cbn [map g_key]. rewrite <- app_assoc. exact Hnd. }
+    specialize (IH Hrr Hnd').
+    assert (Hoff : offsets (length pre + length vs) rr = (length pre + length vs)%nat :: offsets (length pre + length vs + length vs') r').
+    { subst rr. reflexivity. }
+    rewrite Hoff in *. rewrite Hs, dict_set_fresh by exact Hc.
+    rewrite <- Hoff in *. rewrite IH. now rewrite <- app_assoc.
+Qed.
+
+(* ---------- assembling _spikes_per_cluster ---------- *)
+Lemma incr_from_sorted {V} prev (B : list (Z * list V)) :
+  StronglySorted Z.lt (map fst B) -> (forall cv, In cv B -> prev < fst cv) -> incr_from prev B.
+Proof.
+  revert prev; induction B as [|cv r IH]; intros prev Hs Hp; [exact I|]. cbn [incr_from].
+  split; [apply Hp; now left|]. cbn [map] in Hs. apply StronglySorted_inv in Hs as [Hs Hall].
+  apply IH; [exact Hs|]. intros cv' Hin. rewrite Forall_forall in Hall. apply Hall. now apply in_map.
+Qed.
+
+Lemma sorted_lt_NoDup l : StronglySorted Z.lt l -> NoDup l.
+Proof.
+  induction 1 as [|x l Hs IH Hall]; constructor; [|exact IH].
+  intros Hin. rewrite Forall_forall in Hall. specialize (Hall x Hin). lia.
+Qed.
+
+Lemma first_diff_as_diff_from c tl : first_diff (c :: tl) = diff_from (c - 1) (c :: tl).
+Proof. cbn [first_diff diff_from]. f_equal. lia. Qed.
+
+Lemma map_snd_combine {A B} (a : list A) (b : list B) :
+  (length a <= length b)%nat -> map snd (combine a b) = firstn (length a) b.
+Proof.
+  revert b; induction a as [|x r IH]; intros [|y b] H; cbn [length] in *; try reflexivity; try lia.
+  cbn [combine map snd firstn]. f_equal. apply IH. lia.
+Qed.
+Lemma map_fst_combine {A B} (a : list A) (b : list B) :
+  (length a <= length b)%nat -> map fst (combine a b) = a.
+Proof.
+  revert b; induction a as [|x r IH]; intros [|y b] H; cbn [length] in *; try reflexivity; try lia.
+  cbn [combine map fst]. f_equal. apply IH. lia.
+Qed.
+
+Definition sorted_pairs (sc ids : list Z) := isort (combine sc ids).
+
+Lemma spc_some (sc ids : list Z) :
+  sc <> [] -> (length sc <= length ids)%nat ->
+  spikes_per_cluster sc (Some ids) = Some (map to_group (runs (sorted_pairs sc ids))).
+Proof.
+  intros Hne Hlen. unfold spikes_per_cluster. destruct sc as [|x0 sc0] eqn:Esc; [contradiction|].
+  rewrite <- Esc in *. clear Hne.
+  rewrite (gather_ids_sorted sc ids Hlen), (gather_keys_sorted sc ids Hlen).
+  fold (sorted_pairs sc ids). set (s := sorted_pairs sc ids). set (B := runs s).
+  assert (Hexp : expand B = s) by apply runs_expand.
+  assert (Hnb : Forall (fun cv : Z * list Z => snd cv <> []) B) by apply runs_nonempty.
+  destruct (runs_spec s (isort_sorted _)) as (Hss & _ & _). fold B in Hss.
+  assert (HB : B <> []).
+  { intros HB. rewrite HB in Hexp. cbn in Hexp.
+    assert (P : Permutation s (combine sc ids)) by apply isort_perm.
+    rewrite <- Hexp in P. apply Permutation_nil in P. rewrite Esc in P, Hlen.
+    destruct ids; [cbn [length] in Hlen; lia|discriminate]. }
+  rewrite <- Hexp, expand_keys, expand_payloads.
+  destruct B as [|[c vs] r] eqn:EB; [contradiction|]. rewrite <- EB in *.
+  assert (Hvs : vs <> []) by (rewrite EB in Hnb; inversion Hnb; assumption).
+  assert (Hk : exists tl, bkeys B = c :: tl).
+  { rewrite EB. unfold bkeys. cbn [flat_map fst snd]. destruct vs as [|v vs']; [contradiction|].
+    cbn [length repeat app]. eexists; reflexivity. }
+  destruct Hk as (tl & Hk). rewrite Hk, first_diff_as_diff_from, <- Hk.
+  unfold nonzero. rewrite (boundaries (c - 1) 0 B Hnb).
+  2:{ apply incr_from_sorted; [exact Hss|]. intros cv Hin. rewrite EB in Hin, Hss.
+      destruct Hin as [<-|Hin]; [cbn; lia|]. cbn [map] in Hss. apply StronglySorted_inv in Hss as [_ Hall].
+      rewrite Forall_forall in Hall. specialize (Hall (fst cv) (in_map fst _ _ Hin)). cbn [fst] in Hall. lia. }
+  pose proof (keys_at_offsets [] B Hnb) as Hg. cbn [app length] in Hg. rewrite Hg.
+  assert (Hnd : NoDup (map fst B)) by now apply sorted_lt_NoDup.
+  destruct (map fst B) eqn:Emf; [rewrite EB in Emf; discriminate|]. rewrite <- Emf in *.
+  pose proof (spc_dict_blocks B [] [] HB) as Hd. cbn [app length map g_key] in Hd. rewrite Hd; [reflexivity|].
+  exact Hnd.
+Qed.
+
+Lemma arange_length n : length (arange n) = n.
+Proof. unfold arange. now rewrite map_length, seq_length. Qed.
+
+Lemma spc_eff (sc : list Z) (oids : option (list Z)) :
+  sc <> [] -> (length sc <= length (eff_ids sc oids))%nat ->
+  spikes_per_cluster sc oids = Some (map to_group (runs (sorted_pairs sc (eff_ids sc oids)))).
+Proof.
+  intros Hne Hlen. rewrite <- (spc_some sc (eff_ids sc oids) Hne Hlen).
+  destruct oids as [ids|]; [reflexivity|]. destruct sc; [contradiction|]. reflexivity.
+Qed.
+
+Lemma in_expand_key {V} (B : list (Z * list V)) k v : In (k, v) (expand B) -> In k (map fst B).
+Proof.
+  unfold expand. intros H. apply in_flat_map in H as (cv & Hcv & Hin).
+  apply in_map_iff in Hin as (w & E & _). injection E as <- _. now apply in_map.
+Qed.
+
+Lemma map_to_group_keys B : map g_key (map to_group B) = map fst B.
+Proof. rewrite map_map. reflexivity. Qed.
+Lemma map_to_group_ids B : map g_ids (map to_group B) = map snd B.
+Proof. rewrite map_map. reflexivity. Qed.
+
+Lemma runs_groups_spec (sc ids : list Z) :
+  (length sc <= length ids)%nat ->
+  Groups_Spec sc ids (map to_group (runs (sorted_pairs sc ids))).
+Proof.
+  intros Hlen. unfold Groups_Spec, sorted_pairs. set (l := combine sc ids). set (s := isort l).
+  destruct (runs_spec s (isort_sorted _)) as (Hss & Hin & _).
+  rewrite map_to_group_keys. split; [exact Hss|]. split.
+  - intros c. split.
+    + intros Hc. destruct (Hin c Hc) as (y & Hy & <-).
+      assert (Hyl : In y l) by (eapply Permutation_in; [apply isort_perm|exact Hy]).
+      destruct y as [k v]. apply in_combine_l in Hyl. exact Hyl.
+    + intros Hc. apply In_nth_error in Hc as (i & Hi).
+      assert (Hi' : (i < length sc)%nat) by (apply nth_error_Some; congruence).
+      destruct (nth_error ids i) as [v|] eqn:Ev; [|apply nth_error_None in Ev; lia].
+      assert (Hl : In (c, v) l).
+      { unfold l. clear -Hi Ev. revert ids i Hi Ev; induction sc as [|x r IH]; intros [|y ids] [|i] Hi Ev; cbn in *; try discriminate.
+        - injection Hi as ->. injection Ev as ->. now left.
+        - right. eapply IH; eassumption. }
+      assert (Hs : In (c, v) s) by (eapply Permutation_in; [apply Permutation_sym, isort_perm|exact Hl]).
+      rewrite <- (runs_expand s) in Hs. now apply in_expand_key in Hs.
+  - pose proof (group_spec l) as G. fold s in G. rewrite Forall_forall in *. intros g Hg.
+    apply in_map_iff in Hg as (cv & <- & Hcv). specialize (G cv Hcv). exact G.
+Qed.
+
+Lemma runs_partition_spec (sc ids : list Z) :
+  (length sc <= length ids)%nat ->
+  Partition_Spec sc ids (map to_group (runs (sorted_pairs sc ids))).
+Proof.
+  intros Hlen. unfold Partition_Spec, sorted_pairs. set (l := combine sc ids). set (s := isort l).
+  rewrite map_to_group_ids.
+  assert (P : Permutation (concat (map snd (runs s))) (firstn (length sc) ids)).
+  { rewrite <- expand_payloads, runs_expand. rewrite <- (map_snd_combine sc ids Hlen).
+    apply Permutation_map, isort_perm. }
+  split; [exact P|]. intros Hnd. eapply Permutation_NoDup; [apply Permutation_sym, P|exact Hnd].
+Qed.
+
+(* the two theorems, for every input (the empty vector included) *)
+Lemma spc_groups (sc : list Z) (oids : option (list Z)) :
+  (length sc <= length (eff_ids sc oids))%nat ->
+  exists d, spikes_per_cluster sc oids = Some d /\
+            Groups_Spec sc (eff_ids sc oids) d /\ Partition_Spec sc (eff_ids sc oids) d.
+Proof.
+  intros Hlen. destruct sc as [|x r] eqn:E.
+  - exists []. split; [reflexivity|]. split.
+    + repeat split; try constructor; cbn; tauto.
+    + split; [constructor|constructor].
+  - rewrite <- E in *. assert (Hne : sc <> []) by (rewrite E; discriminate).
+    eexists. split; [apply spc_eff; assumption|]. split.
+    + now apply runs_groups_spec.
+    + now apply runs_partition_spec.
+Qed.
+
+(* ids too short: IndexError *)
+Lemma spc_short (sc ids : list Z) :
+  (length ids < length sc)%nat -> spikes_per_cluster sc (Some ids) = None.
+Proof.
+  intros H. unfold spikes_per_cluster. destruct sc as [|x r] eqn:E; [cbn in H; lia|]. rewrite <- E in *.
+  rewrite (gather_none ids (stable_argsort sc) (length ids)); [reflexivity| |lia].
+  apply argsort_complete. lia.
+Qed.
+
+(* ---------- masks, selections, sorted unions ---------- *)
+Lemma nonzero_from_in k m j :
+  In j (nonzero_from k m) <-> exists i, j = (k + i)%nat /\ nth_error m i = Some true.
+Proof.
+  revert k; induction m as [|b r IH]; intros k; cbn [nonzero_from].
+  - split; [intros []|intros (i & _ & H); destruct i; discriminate].
+  - assert (R : In j (nonzero_from (S k) r) <-> exists i, j = (k + S i)%nat /\ nth_error r i = Some true).
+    { rewrite IH. split; intros (i & -> & H); exists i; (split; [lia|exact H]). }
+    destruct b; cbn [In]; rewrite R; split.
+    + intros [<-|(i & -> & H)]; [exists 0%nat; split; [lia|reflexivity]|exists (S i); split; [lia|exact H]].
+    + intros ([|i] & -> & H); [left; lia|right; exists i; split; [lia|exact H]].
+    + intros (i & -> & H). exists (S i). split; [lia|exact H].
+    + intros ([|i] & -> & H); [discriminate|exists i; split; [lia|exact H]].
+Qed.
+
+Lemma nonzero_from_sorted k m : StronglySorted lt (nonzero_from k m).
+Proof.
+  revert k; induction m as [|b r IH]; intros k; cbn [nonzero_from]; [constructor|].
+  destruct b; [|apply IH]. constructor; [apply IH|].
+  apply Forall_forall. intros j Hj. apply nonzero_from_in in Hj as (i & -> & _). lia.
+Qed.
+
+Lemma sorted_map_of_nat l : StronglySorted lt l -> StronglySorted Z.lt (map Z.of_nat l).
+Proof.
+  induction 1 as [|x l Hs IH Hall]; cbn [map]; constructor; [exact IH|].
+  rewrite Forall_map. eapply Forall_impl; [|exact Hall]. intros y Hy. cbn. lia.
+Qed.
+
+(* two strictly increasing lists with the same elements are equal: "the" sorted union *)
+Lemma sorted_ext (a b : list Z) :
+  StronglySorted Z.lt a -> StronglySorted Z.lt b -> (forall x, In x a <-> In x b) -> a = b.
+Proof.
+  intros Ha; revert b; induction Ha as [|x a Hsa IH Hxa]; intros b Hb Hab.
+  - destruct b as [|y b]; [reflexivity|]. exfalso. apply (proj2 (Hab y)). now left.
+  - destruct b as [|y b]; [exfalso; apply (proj1 (Hab x)); now left|].
+    apply StronglySorted_inv in Hb as [Hsb Hyb]. rewrite Forall_forall in Hxa, Hyb.
+    assert (x = y).
+    { destruct (proj1 (Hab x) (or_introl eq_refl)) as [->|Hx]; [reflexivity|].
+      destruct (proj2 (Hab y) (or_introl eq_refl)) as [->|Hy]; [reflexivity|].
+      specialize (Hxa y Hy). specialize (Hyb x Hx). lia. }
+    subst y. f_equal. apply IH; [exact Hsb|]. intros z. split; intros Hz.
+    + destruct (proj1 (Hab z) (or_intror Hz)) as [->|H]; [specialize (Hxa z Hz); lia|exact H].
+    + destruct (proj2 (Hab z) (or_intror Hz)) as [->|H]; [specialize (Hyb z Hz); lia|exact H].
+Qed.
+
+Lemma sic_as_mask sc cl : sic_pos sc cl = nonzero (map (isin cl) sc).
+Proof.
+  unfold sic_pos. destruct sc as [|x r]; [reflexivity|]. destruct cl as [|c cl]; [|reflexivity].
+  unfold nonzero. generalize 0%nat. generalize (x :: r). clear. intros l.
+  induction l as [|y l IH]; intros k; [reflexivity|]. cbn [map isin existsb nonzero_from]. apply IH.
+Qed.
+
+Lemma isin_In cl x : isin cl x = true <-> In x cl.
+Proof.
+  unfold isin. rewrite existsb_exists. split.
+  - intros (y & Hy & E). apply Z.eqb_eq in E. now subst.
+  - intros H. exists x. split; [exact H|apply Z.eqb_refl].
+Qed.
+
+Lemma in_sic sc cl i :
+  In i (spikes_in_clusters sc cl) <->
+  exists p c, i = Z.of_nat p /\ nth_error sc p = Some c /\ In c cl.
+Proof.
+  unfold spikes_in_clusters. rewrite sic_as_mask, in_map_iff. unfold nonzero. split.
+  - intros (p & <- & Hp). apply nonzero_from_in in Hp as (q & -> & Hq). cbn [Nat.add] in *.
+    rewrite nth_error_map in Hq. destruct (nth_error sc q) as [c|] eqn:E; [|discriminate].
+    cbn in Hq. injection Hq as Hq. apply isin_In in Hq. exists q, c. repeat split; assumption.
+  - intros (p & c & -> & Hp & Hc). exists p. split; [reflexivity|]. apply nonzero_from_in.
+    exists p. split; [reflexivity|]. rewrite nth_error_map, Hp. cbn. f_equal. now apply isin_In.
+Qed.
+
+Lemma in_members_arange sc c i :
+  In i (members sc (arange (length sc)) c) <-> exists p, i = Z.of_nat p /\ nth_error sc p = Some c.
+Proof.
+  rewrite <- cluster_spikes_members. unfold get_cluster_spikes. rewrite in_sic. split.
+  - intros (p & c' & -> & Hp & [<-|[]]). now exists p.
+  - intros (p & -> & Hp). exists p, c. repeat split; [exact Hp|now left].
+Qed.
+
+Lemma sic_sorted sc cl : StronglySorted Z.lt (spikes_in_clusters sc cl).
+Proof. unfold spikes_in_clusters. rewrite sic_as_mask. apply sorted_map_of_nat, nonzero_from_sorted. Qed.
+
+Lemma sic_union sc cl d :
+  Groups_Spec sc (arange (length sc)) d -> Union_Spec cl d (spikes_in_clusters sc cl).
+Proof.
+  intros (_ & Hkeys & Hgr). split; [apply sic_sorted|]. intros i. rewrite in_sic.
+  rewrite Forall_forall in Hgr. split.
+  - intros (p & c & -> & Hp & Hc).
+    assert (Hin : In c (map g_key d)) by (apply Hkeys; eapply nth_error_In; exact Hp).
+    apply in_map_iff in Hin as (g & <- & Hg). exists g. split; [exact Hg|]. split; [exact Hc|].
+    rewrite (Hgr g Hg). apply in_members_arange. now exists p.
+  - intros (g & Hg & Hc & Hi). rewrite (Hgr g Hg) in Hi. apply in_members_arange in Hi as (p & -> & Hp).
+    exists p, (g_key g). repeat split; assumption.
+Qed.
+
+Lemma in_clusters_thm (sc cl : list Z) (d : list group) :
+  spikes_per_cluster sc None = Some d ->
+  Union_Spec cl d (spikes_in_clusters sc cl) /\
+  forall u, Union_Spec cl d u -> spikes_in_clusters sc cl = u.
+Proof.
+  intros Hd.
+  assert (Hlen : (length sc <= length (eff_ids sc None))%nat) by (cbn; rewrite arange_length; lia).
+  destruct (spc_groups sc None Hlen) as (d' & Hd' & G & _). rewrite Hd in Hd'. injection Hd' as <-.
+  cbn [eff_ids] in G. pose proof (sic_union sc cl d G) as U. split; [exact U|].
+  intros u (Hsu & Hu). destruct U as (Hsr & Hr). apply sorted_ext; [exact Hsr|exact Hsu|].
+  intros x. now rewrite Hr, Hu.
+Qed.
+
+Lemma members_sorted sc ids c :
+  StronglySorted Z.lt ids -> StronglySorted Z.lt (members sc ids c).
+Proof.
+  unfold members. revert ids; induction sc as [|x r IH]; intros ids Hs; [constructor|].
+  destruct ids as [|y ids]; [constructor|]. apply StronglySorted_inv in Hs as [Hs Hall].
+  cbn [combine filter]. destruct (eqk c (x, y)); cbn [map snd]; [|now apply IH].
+  constructor; [now apply IH|]. rewrite Forall_forall in *. intros z Hz. apply Hall.
+  apply in_map_iff in Hz as ((k & v) & <- & Hkv). apply filter_In in Hkv as [Hkv _].
+  now apply in_combine_r in Hkv.
+Qed.
+
+Lemma arange_sorted n : StronglySorted Z.lt (arange n).
+Proof.
+  unfold arange. apply sorted_map_of_nat. generalize 0%nat.
+  induction n as [|n IH]; intros k; cbn [seq]; constructor; [apply IH|].
+  apply Forall_forall. intros j Hj. apply in_seq in Hj. lia.
+Qed.
+
+Lemma spc_positions (sc : list Z) :
+  exists d, spikes_per_cluster sc None = Some d /\ Groups_Spec sc (arange (length sc)) d /\
+    Forall (fun g => StronglySorted Z.lt (g_ids g) /\
+                     forall i, In i (g_ids g) <-> exists p, i = Z.of_nat p /\ nth_error sc p = Some (g_key g)) d.
+Proof.
+  assert (Hlen : (length sc <= length (eff_ids sc None))%nat) by (cbn; rewrite arange_length; lia).
+  destruct (spc_groups sc None Hlen) as (d & Hd & G & _). cbn [eff_ids] in G.
+  exists d. split; [exact Hd|]. split; [exact G|].
+  destruct G as (_ & _ & Hg). rewrite Forall_forall in *. intros g Hin. rewrite (Hg g Hin). split.
+  - apply members_sorted, arange_sorted.
+  - intros i. apply in_members_arange.
+Qed.
